@@ -1,10 +1,13 @@
 mod determinism;
 mod driver;
 mod gen;
+mod gen_auth;
 mod gen_cat;
 mod gen_grp;
 mod harness;
+mod harness_auth;
 mod harness_cat;
+mod harness_stats;
 mod harness_grp;
 mod harness_ret;
 mod minimize;
